@@ -388,19 +388,8 @@ class Run:
         b = self.buses[i]
         # registration order = order in scenario['reg'] if present else handlers then forwards
         for hi, h in enumerate(self.sc['handlers']):
-            if h['bus'] == i:
-                root = self.root_of(hi)
-                fn = self.fn_of.get(root)
-                if fn is None:
-                    fn = self.fn_of[root] = self._make_handler(root, self.sc['handlers'][root])
-                    self.keep.append(fn)
-                pat = h['pat']
-                with warnings.catch_warnings():
-                    warnings.simplefilter('ignore')
-                    b.on('*' if pat == '*' else (TYPES[pat] if isinstance(pat, int) else pat), fn)
-                hid = S.get_handler_id(fn, b)
-                self.hmap[hid] = f'B{i}.h{root}'
-                self.hidx[hid] = root
+            if h['bus'] == i and not h.get('late'):
+                self._register(hi)
         for fi, (a, d, pat) in enumerate(self.sc.get('fwd', [])):
             if a == i:
                 tgt = self.getbus(d)
@@ -408,6 +397,24 @@ class Run:
                 b.on('*' if pat == '*' else (TYPES[pat] if isinstance(pat, int) else pat), fn)
                 self.hmap[S.get_handler_id(fn, b)] = f'B{i}.fwd{fi}>B{d}'
                 self.keep.append(fn)
+
+    def _register(self, hi: int) -> None:
+        """bus.on(pattern, handler) for scenario handler hi (at bus creation, or later by an actor's 'on' op)."""
+        h = self.sc['handlers'][hi]
+        i = h['bus']
+        b = self.buses[i]
+        root = self.root_of(hi)
+        fn = self.fn_of.get(root)
+        if fn is None:
+            fn = self.fn_of[root] = self._make_handler(root, self.sc['handlers'][root])
+            self.keep.append(fn)
+        pat = h['pat']
+        with warnings.catch_warnings():
+            warnings.simplefilter('ignore')
+            b.on('*' if pat == '*' else (TYPES[pat] if isinstance(pat, int) else pat), fn)
+        hid = S.get_handler_id(fn, b)
+        self.hmap[hid] = f'B{i}.h{root}'
+        self.hidx[hid] = root
 
     def root_of(self, hi: int) -> int:
         """A handler entry with 'same_as' registers the SAME function object as that other entry (on another bus,
@@ -417,6 +424,20 @@ class Run:
             seen.add(hi)
             hi = self.sc['handlers'][hi]['same_as']
         return hi
+
+    def _in_own_ancestry(self, target, event) -> bool:
+        """A handler awaiting the event it is handling, or one of that event's ancestors, waits for itself: a user error
+        (by construction never complete), not something to generate."""
+        parent = {c: p for p, cs in self.children.items() for c in cs}
+        cur = self.tag_of(event)
+        tgt = self.tag_of(target)
+        seen = set()
+        while cur is not None and cur not in seen:
+            if cur == tgt:
+                return True
+            seen.add(cur)
+            cur = parent.get(cur)
+        return False
 
     def bus_running_handler(self, default: int) -> int:
         """Which bus is executing the current handler: needed only for a function object registered on several buses.
@@ -519,6 +540,17 @@ class Run:
                     continue
                 if pre is not None and pre >= 0:
                     await asyncio.sleep(pre)
+                if opts and opts.get('wf_at') is not None:  # the bound given as an absolute virtual instant (fault enumeration)
+                    left = opts['wf_at'] - self.loop.time()
+                    opts = dict(opts, wf=left if left > 1e-9 else None)
+                if opts and opts.get('wf') is not None:
+                    # user code bounding its own wait: `await asyncio.wait_for(child, T)` inside a handler.  On expiry asyncio cancels
+                    # the await (and with it whatever the inline drain was processing at that moment); the handler itself goes on.
+                    try:
+                        await asyncio.wait_for(self._await_event(c, by), opts['wf'])
+                    except asyncio.TimeoutError:
+                        self.rec('wf_timeout', by=by, ev=self.tag_of(c))
+                    continue
                 await self._await_event(c, by)
                 if mode == 'await2':
                     await self._await_event(c, by)  # awaiting an already complete event again
@@ -529,11 +561,11 @@ class Run:
                     await c.event_result()  # re-raises the child's first error (the original object) inside this handler
             elif k == 'await_actor':
                 other = self.actor_events.get(op[1], [])
-                if op[2] < len(other) and other[op[2]].event_path:
+                if op[2] < len(other) and other[op[2]].event_path and not self._in_own_ancestry(other[op[2]], event):
                     await self._await_event(other[op[2]], by)  # an event queued by top-level code, not part of this handler's tree
             elif k == 'await_shared':
                 c = self.shared.get(op[1])
-                if c is not None and c.event_path:
+                if c is not None and c.event_path and not self._in_own_ancestry(c, event):
                     await self._await_event(c, by)
             elif k == 'stop_bus':
                 b = self.buses.get(op[1])
@@ -691,6 +723,12 @@ class Run:
                         run.rec('h_cleanup_done', inv=inv)
                     except asyncio.CancelledError:
                         run.rec('h_cleanup_interrupted', inv=inv)
+                if h.get('cleanup_disp'):
+                    # user code that reports its own cancellation: an event dispatched from the except/finally block of the
+                    # cancelled handler (still inside that handler)
+                    t_, b_ = h['cleanup_disp']
+                    run.rec('op', by=inv, i=-1, op='cleanup_disp')
+                    run._dispatch(run.mk(t_, None, event), b_, inv, run.tag_of(event))
                 raise
             except BaseException as ex:
                 out, eid, et = 'raise', id(ex), type(ex).__name__
@@ -824,6 +862,12 @@ class Run:
                         e = mine[op[1]]
                         res['ev'] = self.tag_of(e)
                         self._dispatch(e, op[2], by, None)
+                elif k == 'on':
+                    # a handler registered while the program is running (events of its type may already be queued / processed)
+                    h = self.sc['handlers'][op[1]]
+                    self.getbus(h['bus'])
+                    self._register(op[1])
+                    self.rec('on', by=by, h=op[1], bus=h['bus'])
                 elif k == 'idle':
                     b = self.getbus(op[1])
                     self.rec('idle_call', by=by, bus=op[1], timeout=op[2], call=sq)
